@@ -3,16 +3,17 @@ package props
 import (
 	"bytes"
 	"encoding/json"
-	"io"
-
 	"errors"
 	"fmt"
-	"go.uber.org/multierr"
+	"io"
+	"log/slog"
 	"strings"
 	"time"
 	"unsafe"
 
+	"go.uber.org/multierr"
 	"go.uber.org/zap"
+	"go.uber.org/zap/exp/zapslog"
 	"go.uber.org/zap/zapcore"
 
 	"verif/simsync"
@@ -93,6 +94,10 @@ type c8world struct {
 	c                 *Ctx
 	probeLg           *zap.Logger
 	failing           *zap.Logger // over a device whose writes fail
+	failingCore       zapcore.Core
+	errFailing        *zsim.SimSink // error output of the logger over the failing device
+	errOthers         *zsim.SimSink // error output of every other logger: nothing is ever due there
+	failWant          int           // failed writes that went through the failing logger (one report each)
 	probeSk           *zsim.SimSink
 	others            []*zap.Logger
 	sinks             []*zsim.SimSink
@@ -178,6 +183,19 @@ func (w *c8world) history(kind, a int, lg *zap.Logger) {
 		default:
 			w.failing.Error("with a reflected field to a failing device", zap.Reflect("r", c8refl{a, "f", nil}))
 		}
+		w.failWant++
+	case 16:
+		// the same failing device, but reached without a Logger (as the slog
+		// handler and other direct users of Core.Check/CheckedEntry.Write do):
+		// such an entry has no error output, its failure is reported nowhere
+		if a%2 == 0 {
+			ent := zapcore.Entry{Level: zapcore.InfoLevel, Time: time.Unix(1700000000, 0).UTC(), Message: "straight through the core of a failing device"}
+			if ce := w.failingCore.Check(ent, nil); ce != nil {
+				ce.Write(zap.Int("a", a))
+			}
+		} else {
+			slog.New(zapslog.NewHandler(w.failingCore)).Info("through the slog handler to a failing device", "a", a)
+		}
 	case 14:
 		w.probeLg.Info("entry without any field on the probe logger")
 	case 13:
@@ -201,7 +219,7 @@ type c8hook struct{ w *c8world }
 
 func (h c8hook) OnWrite(*zapcore.CheckedEntry, []zapcore.Field) { h.w.hookGot++ }
 
-const c8kinds = 16
+const c8kinds = 17
 
 func runC08(c *Ctx) {
 	g, r := c.G, c.R
@@ -254,10 +272,12 @@ func runC08(c *Ctx) {
 	case 3:
 		w.probeLg = w.probeLg.WithLazy(zap.Object("lazy", c8nested{1}))
 	}
+	w.errOthers = zsim.NewSimSink(r, "errout-others", 1, 31)
+	w.errFailing = zsim.NewSimSink(r, "errout-failing", 1, 33)
 	for i := 0; i < 3; i++ {
 		s := zsim.NewSimSink(r, fmt.Sprintf("other%d", i), 1+g.Draw(3), uint64(i)+21)
 		w.sinks = append(w.sinks, s)
-		opts := []zap.Option{zap.WithClock(clk), zap.AddStacktrace(zapcore.ErrorLevel)}
+		opts := []zap.Option{zap.WithClock(clk), zap.AddStacktrace(zapcore.ErrorLevel), zap.ErrorOutput(zapcore.Lock(w.errOthers))}
 		if i == 1 {
 			opts = append(opts, zap.AddCaller())
 		}
@@ -266,7 +286,8 @@ func runC08(c *Ctx) {
 	{
 		fs := zsim.NewSimSink(r, "failing", 1, 77)
 		fs.FailFrom = 1
-		w.failing = zap.New(zapcore.NewCore(mkEnc(g.Chance(2)), zapcore.Lock(fs), zapcore.DebugLevel), zap.WithClock(clk), zap.ErrorOutput(zapcore.AddSync(io.Discard)))
+		w.failingCore = zapcore.NewCore(mkEnc(g.Chance(2)), zapcore.Lock(fs), zapcore.DebugLevel)
+		w.failing = zap.New(w.failingCore, zap.WithClock(clk), zap.ErrorOutput(zapcore.Lock(w.errFailing)))
 	}
 	// after the reference call the pools switch to a reusing policy
 	policy := pick(g, simsync.PoolLIFO, simsync.PoolLIFO, simsync.PoolFIFO, simsync.PoolRandom)
@@ -371,6 +392,16 @@ func runC08(c *Ctx) {
 	c.Nontrivial = probes >= 2 && hist >= 4
 	if w.hookGot != w.hookWant {
 		c.Fail("C08: a terminal hook of an earlier entry ran for a later one (state left in a pooled checked entry)", "%d panic-level entries were logged, their hook ran %d times", w.hookWant, w.hookGot)
+		return
+	}
+	// error outputs: a pooled checked entry must not carry one logger's error
+	// output into an entry of another logger or of none
+	if len(w.errOthers.Data) > 0 {
+		c.Fail("C08: a write failure was reported on the error output of a logger the entry did not go through (state left in a pooled checked entry)", "error output of the loggers over healthy devices received %q", clip(w.errOthers.Data))
+		return
+	}
+	if got := bytes.Count(w.errFailing.Data, []byte("\n")); got != w.failWant {
+		c.Fail("C08: the error output of a logger did not receive exactly the reports of its own failed entries (state left in a pooled checked entry)", "%d entries failed through the logger over the failing device, its error output holds %d reports: %q", w.failWant, got, clip(w.errFailing.Data))
 		return
 	}
 	// read-after-put: poisoned storage must never reach a sink
